@@ -14,9 +14,9 @@ Quiescent == ready = <<>>
 \* Listed known findings (known_findings.json) that can make a property fail; a behaviour that went through
 \* one of these deviation clauses is excused for THAT property only.
 DevOf(p) == CASE p = "C01" -> {}
-              [] p = "C02" -> {"D9"}
+              [] p = "C02" -> {}
               [] p = "C03" -> {"D11"}
-              [] p = "C04" -> {"D9"}
+              [] p = "C04" -> {}
               [] p = "C05" -> {}
               [] p = "C06" -> {}
               [] p = "C10" -> {}
